@@ -12,11 +12,11 @@ import (
 // key buffer after every call.
 func TestC09(t *testing.T) {
 	e := LoadEnv("C09")
-	cf := NewCaseFile("C09", "From Cache Require Import Base Backend Spec Check.", "check_c09")
+	cf := NewCaseFile("C09", "From Cache Require Import Base Backend Spec Failover FailoverRun Check.", "check_c09")
 	cf.Rule = "keys: a constructed xxhash64 collision pair (64-byte keys differing in both words of one lane, verified with the real " +
 		"xxhash) plus one unrelated key; exhaustive: every sequence of length <= 3 (quick) / <= 4 (thorough) over " +
 		"{write a,write b,read a,read b,delete a,delete b,expireall,len,walk}; random: lengths 4..16 with sleeps, TTLs, cleanup; " +
-		"the caller's key buffer is overwritten after every call; 3 backends (SyncMap as collision-free control); " +
+		"the caller's key buffer is overwritten after every call; 3 backends (SyncMap as collision-free control); Failover part: steered Gets whose callers overwrite the key buffer right after return while background builds are in flight; " +
 		"non-trivial = contains a write to each colliding key and a read; distinct = distinct Gallina term"
 
 	a, b := CollisionPair(e.Rng)
@@ -73,7 +73,7 @@ func TestC09(t *testing.T) {
 			cf.Count("op:"+r.Ops[j].Kind+"->"+res.Kind, 1)
 		}
 
-		cf.Add("("+fl+", "+r.CoqCase(conf)+")", fl+"/"+tag,
+		cf.Add("C09B ("+fl+", "+r.CoqCase(conf)+")", fl+"/"+tag,
 			map[string]any{"flavour": fl, "conf": conf, "ops": r.Ops, "results": r.Results}, wa && wb && rd)
 	}
 
@@ -104,6 +104,13 @@ func TestC09(t *testing.T) {
 			r := RunBackendOps(t, e.Rng, fl, cfg, g)
 			add(fl, r, "random", cfg)
 		}
+	}
+
+	// Failover: callers overwrite the key buffer right after Get returns while background builds are in flight
+	for i := 0; i < e.Pick(150, 1500); i++ {
+		out := GenFailover(t, e.Rng, FOpts{MinGets: 1, MaxGets: 4, Keys: 2, FailRate: 0.2, Hostile: true,
+			InitStates: []string{"stale", "stale", "absent", "toostale"}})
+		cf.Add("C09F ("+out.Term+")", "failover/"+out.Tag, out.Replay, out.Nontriv)
 	}
 
 	if err := cf.Write(e); err != nil {
